@@ -8,7 +8,7 @@ extern "C" void vf_run_harness(void (*f)(void)) {
   try { f(); } catch (const std::exception& e) { std::printf("ESCAPED-EXCEPTION %s\n", e.what()); vf_exc = (void*)1; } catch (...) { std::printf("ESCAPED-EXCEPTION ?\n"); vf_exc = (void*)1; }
 }
 extern "C" void vf_global_ctors(void) {}
-extern "C" void vf_unresolved_stub(void) { std::printf("UNRESOLVED-STUB-REACHED\n"); std::fflush(stdout); std::abort(); }
+extern "C" void vf_unresolved_stub(const char* name) { std::printf("UNRESOLVED-STUB-REACHED %s\n", name); std::fflush(stdout); std::abort(); }
 // The real build's std::chrono clocks read the same symbolic clock as the model (libstdc++ calls clock_gettime).
 #include <time.h>
 extern "C" long long vf_clock_now;
